@@ -35,6 +35,9 @@ import (
 // own (warm) observation of the same operation.
 
 // ProbeKinds lists the operations probed.
+// BurstKinds are the operations of C05's cold-start bursts (the probe kinds plus the preview).
+var BurstKinds = append(append([]string{}, ProbeKinds...), "previewcr3")
+
 var ProbeKinds = []string{"gray444", "gray420", "grayrgba", "phash", "dct2d", "dct64", "dct256", "dct2d256", "f64dct", "blurhash", "ahash", "decode", "parse", "parsexmp", "tagname", "sniff"}
 
 func digestF32(p []float32) string {
@@ -168,6 +171,17 @@ func probeOp(kind string, seed uint64) func() string {
 				return fmt.Sprint(t1, e1, t2, e2, t1.String(), t1.Extension(), imagetype.FromString(t1.String()))
 			}
 		}
+	case "previewcr3":
+		mk := func() []byte {
+			t, _, _ := gen.SynthPayload(r, r.Bool(), 1)
+			return t
+		}
+		// preview sizes differ from seed to seed: a process-wide high-water mark would be written
+		cr := gen.BuildCR3(r, gen.CR3Parts{CMT1: mk(), CMT2: mk(), Preview: append([]byte{0xFF, 0xD8}, r.Bytes(1000+int(seed%16)*3000)...), PrvwW: 1620, PrvwH: 1080, NoMdat: r.Bool()}, 0, false)
+		return func() string {
+			b, err := imagemeta.PreviewCR3(mon.NewRS(cr.Bytes))
+			return fmt.Sprintf("%d:%016x/%v", len(b), core.HashStr(string(b)), err)
+		}
 	case "parsexmp":
 		x := gen.GenXMPRec(r, 60, 200).Serialise(r, gen.RandXMPStyle(r, false), 0)
 		return func() string {
@@ -194,6 +208,9 @@ func probeOp(kind string, seed uint64) func() string {
 
 // RunProbe is the body of the probe process.
 func RunProbe(spec string) int {
+	if rest, ok := strings.CutPrefix(spec, "burst:"); ok {
+		return runBurst(rest)
+	}
 	kind, seedS, _ := strings.Cut(spec, ":")
 	seed, _ := strconv.ParseUint(seedS, 10, 64)
 	op := probeOp(kind, seed)
@@ -256,5 +273,90 @@ func firstCallProbe(c *core.Ctx, kind string, seed uint64) {
 	case got[0] != warm:
 		c.Rec.Violation("firstcall:"+kind, fmt.Sprintf("the first %s of a fresh process differs from the same call in a process with a history (%s): %s", kind, desc, firstDiff(got[0], warm)),
 			map[string]any{"probe": kind, "seed": seed, "fresh": clipStr(got[0], 800), "warm": clipStr(warm, 800)})
+	}
+}
+
+// Cold-start bursts (C05): in a process of its own, n goroutines are released together and each
+// makes the same kind of call - on an input of its own - as the very first thing the process asks
+// of the library. Whatever the library initialises lazily on first use meets concurrency here in
+// every burst, not only when a long-lived worker happens to schedule two first uses together.
+// Afterwards every call is repeated sequentially and must give what it gave in the burst. Under
+// the race build the detector's reports go to the log the driver collects.
+func runBurst(spec string) int {
+	kind, seedS, _ := strings.Cut(spec, ":")
+	seed, _ := strconv.ParseUint(seedS, 10, 64)
+	const n = 8
+	ops := make([]func() string, n)
+	for g := range ops {
+		ops[g] = probeOp(kind, seed*64+uint64(g))
+	}
+	got := make([]string, n)
+	start := make(chan struct{})
+	done := make(chan int, n)
+	for g := 0; g < n; g++ {
+		go func(g int) {
+			<-start
+			got[g] = ops[g]()
+			done <- g
+		}(g)
+	}
+	close(start)
+	for g := 0; g < n; g++ {
+		<-done
+	}
+	rc := 0
+	for g := 0; g < n; g++ {
+		again := ops[g]()
+		if again != got[g] {
+			fmt.Printf("BURSTDIFF %d %s\n", g, strings.ReplaceAll(firstDiff(got[g], again), "\n", " "))
+			rc = 0
+		}
+	}
+	fmt.Printf("BURSTDONE %d\n", n)
+	return rc
+}
+
+// coldBurst runs one burst in a fresh process of this binary and reports what differs.
+func coldBurst(c *core.Ctx, kind string, seed uint64) {
+	self, err := os.Executable()
+	if err != nil {
+		c.Rec.Count("burst_unavailable", 1)
+		return
+	}
+	cmd := exec.Command(self)
+	cmd.Env = append(os.Environ(), fmt.Sprintf("VERIF_PROBE=burst:%s:%d", kind, seed))
+	var outb, errb bytes.Buffer
+	cmd.Stdout, cmd.Stderr = &outb, &errb
+	done := make(chan error, 1)
+	if err := cmd.Start(); err != nil {
+		c.Rec.Count("burst_unavailable", 1)
+		return
+	}
+	go func() { done <- cmd.Wait() }()
+	select {
+	case err = <-done:
+	case <-time.After(300 * time.Second):
+		_ = cmd.Process.Kill()
+		c.Rec.Count("burst_timeout(inconclusive)", 1)
+		return
+	}
+	desc := fmt.Sprintf("burst %s seed=%d", kind, seed)
+	c.Rec.Eval(1)
+	if err != nil {
+		c.Rec.Violation("coldstart:crash:"+kind, fmt.Sprintf("a fresh process whose first library calls are 8 concurrent %s calls died (%s): %v: %s", kind, desc, err, firstLineOf(errb.String())), map[string]any{"burst": kind, "seed": seed, "stderr": clipStr(errb.String(), 2000)})
+		return
+	}
+	if !strings.Contains(outb.String(), "BURSTDONE") {
+		c.Rec.Count("burst_unreadable(inconclusive)", 1)
+		return
+	}
+	c.Rec.Count("cold_start_bursts", 1)
+	c.Rec.Sig("coldstart|" + kind)
+	for _, ln := range strings.Split(outb.String(), "\n") {
+		if strings.HasPrefix(ln, "BURSTDIFF ") {
+			c.Rec.Violation("coldstart:"+kind, fmt.Sprintf("in a fresh process, one of 8 concurrent first %s calls returned something else than the same call repeated afterwards (%s): %s", kind, desc, strings.TrimPrefix(ln, "BURSTDIFF ")),
+				map[string]any{"burst": kind, "seed": seed, "line": ln})
+			break
+		}
 	}
 }
